@@ -454,12 +454,17 @@ class Interp(object):
             inj['done'] = True
             self.frames[-1].locals.update(inj['values'](self))
         while True:
-            c = self.truth(self.eval(s.test), s.test)
+            tv = self.eval(s.test)
+            c = self.truth(tv, s.test)
             if not c:
                 self.exec_block(s.orelse)
                 return
             n += 1
-            if n > self.while_bound:
+            # a loop driven by a definite container (work list / stack of known content) runs as the code says;
+            # loops on constants or unknowns are bounded
+            definite = not isinstance(s.test, ast.Constant) and isinstance(tv, (AList, ADict)) and not getattr(tv, 'unknown', False) \
+                and not getattr(tv, 'open', False)
+            if n > (400 if definite else self.while_bound):
                 self.emit('cut', s, {'why': 'while bound'})
                 raise PathCut()
             try:
